@@ -100,6 +100,44 @@ Qed.
 Print Assumptions C10_dispatch_agrees.
 
 (* ================================================================================================ *)
+(* the declared type: file extension as each entry point derives it                                 *)
+(* ================================================================================================ *)
+(* splitext_ext = os.path.splitext(path)[1][1:] (parse_file, get_parsed_instance), url_ext = url.split(".")[-1]
+   (parse_url).  For a path dir/stem.ext - dir empty or ending in "/", no "/" in stem and ext, no "." in ext, stem
+   not made of dots only - both are ext, whatever precedes the path in the URL and however many dots stem and
+   the directories contain ("dir.v1/00002-00000001.v2.soi", "x..wmd").  Outside this shape they differ on the
+   unchanged code (".soc", "...soc": no extension for os.path.splitext; "dir.v1/inst": "v1/inst" for parse_url) -
+   see C10_note_declared_type; no validator accepts a type containing "/" or the empty type, so on a base name
+   without dot all entry points still agree on TypeError. *)
+Theorem C10_declared_type : forall pre d stem e,
+  (d = [] \/ exists d', d = d' ++ [47]) ->
+  has_char 47 stem = false -> has_char 47 e = false -> has_char 46 e = false ->
+  forallb (N.eqb 46) stem = false ->
+  splitext_ext (d ++ stem ++ 46 :: e) = e /\ url_ext (pre ++ d ++ stem ++ 46 :: e) = e.
+Proof. exact declared_type_proof. Qed.
+Print Assumptions C10_declared_type.
+
+(* hence the path-based entry points are the extension-based ones the other theorems speak of *)
+Theorem C10_paths : forall c pre d stem e f t,
+  (d = [] \/ exists d', d = d' ++ [47]) ->
+  has_char 47 stem = false -> has_char 47 e = false -> has_char 46 e = false ->
+  forallb (N.eqb 46) stem = false ->
+  let p := d ++ stem ++ 46 :: e in
+  parse_file_path c p f t = parse_file_model c e f t /\
+  parse_url_url c (pre ++ p) f t = parse_url_model c e f t /\
+  get_parsed_instance_path p f t = get_parsed_instance_model e f t.
+Proof. exact paths_proof. Qed.
+Print Assumptions C10_paths.
+
+Example C10_note_declared_type :
+  splitext_ext (lit "/d/.soc") = [] /\ url_ext (lit "file:///d/.soc") = lit "soc" /\
+  splitext_ext (lit "/d/...soc") = [] /\ url_ext (lit "file:///d/...soc") = lit "soc" /\
+  splitext_ext (lit "/dir.v1/inst") = [] /\ url_ext (lit "file:///dir.v1/inst") = lit "v1/inst" /\
+  splitext_ext (lit "/dir.v1/00002-00000001.v2.soi") = lit "soi" /\ url_ext (lit "file:///dir.v1/00002-00000001.v2.soi") = lit "soi" /\
+  splitext_ext (lit "/d/x..wmd") = lit "wmd" /\ url_ext (lit "file:///d/x..wmd") = lit "wmd".
+Proof. exact declared_type_hidden. Qed.
+
+(* ================================================================================================ *)
 (* the splitters                                                                                    *)
 (* ================================================================================================ *)
 (* a text given as lines without line-boundary characters, each with its own terminator LF / CRLF / CR (same style
